@@ -256,12 +256,17 @@ orc_vector_extend (OrcVector *vector)
 {
   vector->n_items_alloc += ORC_VECTOR_ITEM_CHUNK;
   vector->items = orc_realloc (vector->items, sizeof(void *) * vector->n_items_alloc);
+  /* unused slots are NULL, so that the array handed out is NULL-terminated */
+  memset (vector->items + vector->n_items, 0,
+      sizeof(void *) * (vector->n_items_alloc - vector->n_items));
 }
 
 void
 orc_vector_append (OrcVector *vector, void *item)
 {
-  if (vector->n_items == vector->n_items_alloc) {
+  /* always keep one NULL slot after the last item: orc_parse_error_freev()
+   * walks the array it is given until it finds NULL */
+  if (vector->n_items + 1 >= vector->n_items_alloc) {
     orc_vector_extend (vector);
   }
   vector->items[vector->n_items] = item;
